@@ -583,9 +583,13 @@ def run_program(ctx, mon, rng, pid, nsteps, record=None):
             want_sizes = (kw_.get("idna_encode_size", 256), kw_.get("idna_decode_size", 256), want_host)
             import yarl as _yarl
 
-            info = _yarl.cache_info()
-            got_sizes = (info["idna_encode"].maxsize, info["idna_decode"].maxsize, info["encode_host"].maxsize)
+            info = guarded(_yarl.cache_info)
             ctx.count("cache_configure_sizes_checked")
+            if is_exc(info):
+                ctx.fail("cache_api_raises", {"program": pid, "step": si, "record": step, "config": prog.config}, f"cache_info() after cache_configure(**{kw_}) raised {info!r}")
+                got_sizes = want_sizes
+            else:
+                got_sizes = (info["idna_encode"].maxsize, info["idna_decode"].maxsize, info["encode_host"].maxsize)
             if got_sizes != want_sizes:
                 ctx.fail("history_dependent_outcome", {"program": pid, "step": si, "record": step, "config": prog.config},
                          f"cache_configure(**{kw_}) left (idna_encode, idna_decode, encode_host) maxsize = {got_sizes}, its arguments mean {want_sizes}", fields=["cache_configure_sizes"])
